@@ -518,8 +518,10 @@ def position_runs(chk, n):
                 cons = shared if path else SearchConstraintSearchSince(
                     current_date=since.strftime('%Y-%m-%d %H:%M:%S'),
                     ts_matcher_cls=TS, days=0, hours=0)
+                destructive = (k % 3 != 2)
+                chk.dist('position_destructive_%s' % destructive)
                 try:
-                    cons.apply_to_file(fd)
+                    cons.apply_to_file(fd, destructive=destructive)
                     pos = fd.tell()
                 except Exception as exc:     # pylint: disable=broad-except
                     pos = f'{type(exc).__name__}: {exc}'
@@ -541,6 +543,7 @@ def position_runs(chk, n):
                 'content': list(c), 'since': str(since), 'position': pos,
                 'SEEK_HORIZON': H, 'MAX_SEEK_HORIZON_EXPAND': A,
                 'MAX_TRY_FIND_WITH_DATE_ATTEMPTS': L,
+                'destructive': destructive,
                 'same_constraint_object_applied_before_to':
                     history[-4:-1] if path else []})
         if k < 2:
